@@ -232,6 +232,18 @@ int setup_routing_information(struct element *e, const cJSON *request, const cJS
 	return 0;
 }
 
+void remove_routing_request(struct routing_request *request)
+{
+	HASHTABLE_REMOVE(route_table, request->owner_peer->routing_table, request->id, NULL);
+	if (unlikely(request->timer.cancel(&request->timer) < 0)) {
+		log_peer_err(request->requesting_peer, "Could not cancel request timer!\n");
+	}
+
+	cjet_timer_destroy(&request->timer);
+	cJSON_Delete(request->origin_request_id);
+	cjet_free(request);
+}
+
 /**
  * @param json_rpc The complete response
  * @param response Result or error object of json_rpc, this is what is to be forwarded to the original requester
